@@ -38,6 +38,8 @@ var uninterp = map[string]uninterpFn{
 	"err_is_range": {[]string{"Any"}, "Bool", types.Typ[types.Bool]},
 	"err_is_syntax": {[]string{"Any"}, "Bool", types.Typ[types.Bool]},
 	"nvars":        {[]string{"Any"}, "Int", types.Typ[types.Int]},
+	"var_at":       {[]string{"Any", "Int"}, "Str", types.Typ[types.String]},
+	"lvar_off":     {[]string{"Any", "Int"}, "Int", types.Typ[types.Int]},
 	"enc_len":      {[]string{"Any"}, "Int", types.Typ[types.Int]},
 	"enc_at":       {[]string{"Any", "Int"}, "Int", types.Typ[types.Int]},
 	"fill_of":      {[]string{"Any", "Int"}, "Any", types.NewInterfaceType(nil, nil)},
